@@ -24,6 +24,14 @@ from . import whelpers
 wformat = util.wformat
 
 
+def node_linenumber(node):
+    """Line number of node for error messages.
+    node is None while checking the parameters of a function pointer
+    argument (see VerifyAttrs.check_arg_attrs).
+    """
+    return getattr(node, "linenumber", "?")
+
+
 class VerifyAttrs(object):
     """
     Check attributes and set some defaults.
@@ -187,7 +195,7 @@ class VerifyAttrs(object):
                 raise RuntimeError("Bad value for intent: " + attrs["intent"])
             if not is_ptr and intent != "in":
                 # Nonpointers can only be intent(in).
-                raise RuntimeError("{}: Only pointer arguments may have intent attribute".format(node.linenumber))
+                raise RuntimeError("{}: Only pointer arguments may have intent attribute".format(node_linenumber(node)))
         meta["intent"] = intent
         return intent    
         
@@ -361,7 +369,7 @@ class VerifyAttrs(object):
             ]:
                 raise RuntimeError(
                     "Illegal attribute '{}' for argument '{}' defined at line {}".format(
-                        attr, argname, node.linenumber
+                        attr, argname, node_linenumber(node)
                     )
                 )
 
@@ -370,7 +378,7 @@ class VerifyAttrs(object):
             # Sanity check to make sure arg_typemap exists
             raise RuntimeError(
                 "check_arg_attrs: Missing arg.typemap on line {}: {}".format(
-                    node.linenumber, node.decl
+                    node_linenumber(node), getattr(node, "decl", arg.gen_decl())
                 )
             )
 
@@ -446,7 +454,7 @@ class VerifyAttrs(object):
             if not temp:
                 raise RuntimeError(
                     "line {}: std::vector must have template argument: {}".format(
-                        node.linenumber, arg.gen_decl()
+                        node_linenumber(node), arg.gen_decl()
                     )
                 )
             arg_typemap = arg.template_arguments[0].typemap
@@ -464,7 +472,7 @@ class VerifyAttrs(object):
         self.parse_attrs(node, arg)
 
         # Flag node if any argument is assumed-rank.
-        if arg.metaattrs["assumed-rank"]:
+        if arg.metaattrs["assumed-rank"] and node is not None:
             node._gen_fortran_generic = True
 
         if arg.is_function_pointer():
@@ -491,12 +499,12 @@ class VerifyAttrs(object):
                 raise RuntimeError(
                     "dimension attribute of '{}' must have a value in parens, "
                     "for example +dimension(n), not {!r} at line {}"
-                    .format(ast.name, dim, node.linenumber))
+                    .format(ast.name, dim, node_linenumber(node)))
             try:
                 declast.check_dimension(dim, metaattrs)
             except RuntimeError:
                 raise RuntimeError("Unable to parse dimension: {} at line {}"
-                                   .format(dim, node.linenumber))
+                                   .format(dim, node_linenumber(node)))
 
 
 class GenFunctions(object):
